@@ -143,33 +143,59 @@ Definition s_owner_is_root (b : bytes) (c : nat) : bool :=
 Definition s_owner_decodes (b : bytes) (c : nat) : bool :=
   match spec_decode_name b c with Some _ => true | None => false end.
 
-(* additional records; [seen]: an OPT has been met *)
-Fixpoint s_walk_ar (n : nat) (b : bytes) (c idx : nat) (seen has_question : bool) : verdict :=
-  match n with
-  | O => match s_after_records b c has_question with Some p => VFormerr p | None => VClean end
-  | S n' =>
-    match s_delimit b c with
-    | None => VFormerr (RecordUndelimitable idx)
-    | Some (oe, e) =>
-      match sbe16 b oe, sbe16 b (oe + 2), sbe32 b (oe + 4) with
-      | Some ty, Some cl, Some ttl =>
-        if (ty =? 41)%N then
-          if seen then VFormerr (SecondOpt idx)
-          else if negb (s_owner_is_root b c && s_opt_rdata_ok (slice b (oe + 10) e)) then VFormerr (OptMalformed idx)
-          else if negb ((ttl / 65536) mod 256 =? 0)%N then VBadVers idx
-          else s_walk_ar n' b e (S idx) true has_question
-        else if (ty =? 250)%N then
-          match n' with
-          | S _ => VFormerr (TsigNotLast idx)
-          | O =>
-            if negb (s_owner_decodes b c && s_tsig_rdata_ok (slice b (oe + 10) e) && (cl =? 255)%N && (spec_ttl ttl =? 0)%N)
-            then VFormerr (TsigMalformed idx)
-            else VTsig idx (s_after_records b e has_question)
-          end
-        else s_walk_ar n' b e (S idx) seen has_question
-      | _, _, _ => VFormerr (RecordUndelimitable idx)
-      end
+(* one record of the additional section, read at offset c; [seen]: an OPT has been met before;
+   [last]: it is the last counted record.  [e] is the offset just after the record. *)
+Inductive rec_class :=
+| RUndelim | RSecondOpt | ROptMalformed | RBadVers | ROptOk (e : nat)
+| RTsigNotLast | RTsigMalformed | RTsig (e : nat) | ROrdinary (e : nat).
+
+Definition s_classify (b : bytes) (c : nat) (seen last : bool) : rec_class :=
+  match s_delimit b c with
+  | None => RUndelim
+  | Some (oe, e) =>
+    match sbe16 b oe, sbe16 b (oe + 2), sbe32 b (oe + 4) with
+    | Some ty, Some cl, Some ttl =>
+      if (ty =? 41)%N then
+        if seen then RSecondOpt
+        else if negb (s_owner_is_root b c && s_opt_rdata_ok (slice b (oe + 10) e)) then ROptMalformed
+        else if negb ((ttl / 65536) mod 256 =? 0)%N then RBadVers     (* RFC 6891 §6.1.3: VERSION = bits 23..16 of the TTL field *)
+        else ROptOk e
+      else if (ty =? 250)%N then
+        if negb last then RTsigNotLast
+        else if negb (s_owner_decodes b c && s_tsig_rdata_ok (slice b (oe + 10) e) && (cl =? 255)%N && (spec_ttl ttl =? 0)%N)
+             then RTsigMalformed
+             else RTsig e
+      else ROrdinary e
+    | _, _, _ => RUndelim
     end
+  end.
+
+(* the additional records in order: the first problem / EDNS version error / TSIG, or their end *)
+Inductive ar_result := ArFormerr (p : problem) | ArBadVers (i : nat) | ArTsig (i e : nat) | ArEnd (e : nat).
+
+Fixpoint s_walk_ar (n : nat) (b : bytes) (c idx : nat) (seen : bool) : ar_result :=
+  match n with
+  | O => ArEnd c
+  | S n' =>
+    match s_classify b c seen (match n' with O => true | S _ => false end) with
+    | RUndelim => ArFormerr (RecordUndelimitable idx)
+    | RSecondOpt => ArFormerr (SecondOpt idx)
+    | ROptMalformed => ArFormerr (OptMalformed idx)
+    | RBadVers => ArBadVers idx
+    | ROptOk e => s_walk_ar n' b e (S idx) true
+    | RTsigNotLast => ArFormerr (TsigNotLast idx)
+    | RTsigMalformed => ArFormerr (TsigMalformed idx)
+    | RTsig e => ArTsig idx e
+    | ROrdinary e => s_walk_ar n' b e (S idx) seen
+    end
+  end.
+
+Definition s_finish (b : bytes) (has_question : bool) (r : ar_result) : verdict :=
+  match r with
+  | ArFormerr p => VFormerr p
+  | ArBadVers i => VBadVers i
+  | ArTsig i e => VTsig i (s_after_records b e has_question)
+  | ArEnd e => match s_after_records b e has_question with Some p => VFormerr p | None => VClean end
   end.
 
 Definition s_walk_sections (b : bytes) (c : nat) (has_question : bool) : verdict :=
@@ -177,7 +203,7 @@ Definition s_walk_sections (b : bytes) (c : nat) (has_question : bool) : verdict
   | Some an, Some ns, Some ar =>
     match s_walk_an_ns (N.to_nat an + N.to_nat ns) b c 0 with
     | inl p => VFormerr p
-    | inr c' => s_walk_ar (N.to_nat ar) b c' (N.to_nat an + N.to_nat ns) false has_question
+    | inr c' => s_finish b has_question (s_walk_ar (N.to_nat ar) b c' (N.to_nat an + N.to_nat ns) false)
     end
   | _, _, _ => VSilent
   end.
